@@ -545,6 +545,9 @@ func c06(p *core.Program, r *core.Report) {
 		return false, ""
 	})
 
+	// implicit index panics of the parser's own bookkeeping: the last-element reads of the multi-polygon accumulator
+	// (the same engine as C09, restricted to package wkt)
+	lastElemRule(p, r, "last-elem-guarded", 1, func(o *types.Func) bool { return o.Pkg() != nil && o.Pkg().Path() == mod+"/"+wktRel })
 	sentinelRule(p, r, "index-sentinel-checked", []string{wktRel}, 1)
 	errflowRule(p, r, ruleText(r, "errors-recorded", "every error-returning call in package wkt propagates its error or records it with setError/setLexError/setParseError (the parser then returns 1)", 40), fns, func(c ssa.CallInstruction) bool {
 		if f := c.Common().StaticCallee(); f != nil {
